@@ -150,6 +150,8 @@ class Gen:
         frm = self.user()
         if kind in ("transfer", "normal"):
             to = r.choice(self.users + self.contracts + [1, 3, 30] + ([n for n in self.name_owner] if r.random() < 0.3 else []))
+            if r.random() < 0.08:
+                to = frm                 # a transfer to the sender's own account
             t = self.mk(kind, frm, to=to, amount=str(self.small()), plen=r.choice([0, 0, 0, 10, 250, 1000]))
             if to in self.contracts and r.random() < 0.7:
                 t["vm"] = self.vm_script(frm, to)
@@ -215,6 +217,8 @@ class Gen:
             elif f == "chain":
                 self.nonce[frm] -= 1
                 t["chainok"] = False
+            elif f == "sigforeign":
+                t["sigforeign"] = True
             elif f == "signer":
                 t["signer"] = r.choice([u for u in self.users if u != frm] + [0])
                 if self.c["mode"] == "chain":
@@ -245,7 +249,7 @@ class Gen:
         for i, t in enumerate(self.all):
             if t.get("replayof"):
                 continue
-            key = tuple(t[f] for f in ("kind", "from", "to", "nonce", "amount", "plen", "gaslimit", "signer", "chainok", "name", "dest"))
+            key = tuple(t[f] for f in ("kind", "from", "to", "nonce", "amount", "plen", "gaslimit", "signer", "chainok", "name", "dest")) + (t.get("sigforeign", False),)
             if key in seen:
                 t["replayof"] = seen[key] + 1
                 t.pop("vm", None)
@@ -450,7 +454,7 @@ def Ns(n):
 def coq_tx(t, h):
     return ("(T %s %s %s %s %s %s %s %s %s %s %s %s %s, %s)" % (
         KIND[t["kind"]], Ns(t["from"]), Ns(t["to"]), Ns(t["nonce"]), Zs(int(t["amount"])), Zs(t["plen"]), Zs(t["gaslimit"]),
-        Ns(7 if t["chainok"] else 8), Ns(h), Ns(t["signer"]), Ns(t["name"]), Ns(t["dest"]),
+        Ns(7 if t["chainok"] else 8), Ns(h), Ns(0 if t.get("sigforeign") else t["signer"]), Ns(t["name"]), Ns(t["dest"]),
         "true" if t["fddeny"] else "false", "true" if t.get("force") else "false"))
 
 
@@ -646,6 +650,12 @@ def predicates(c, obs):
                 if str(sid) in d["acc"] and d["acc"][str(sid)]["n"] != t["nonce"]:
                     fails.append(("C04", "nonce-not-advanced", "an executed transaction did not set its sender's nonce to the transaction nonce",
                                   {"tx": t, "sender_nonce_after": d["acc"][str(sid)]["n"]}))
+                # every effect of an executed tx is applied: value only moves between the dumped accounts and the fee pot
+                if set(d["acc"]) == set(prev["acc"]):
+                    delta = sum(int(d["acc"][k]["b"]) - int(prev["acc"][k]["b"]) for k in d["acc"])
+                    if delta != -int(o.get("fee") or 0):
+                        fails.append(("C03", "partial-application", "an executed transaction changed the total of all account balances by %d although its fee is %s: "
+                                      "a debit without its credit (or the reverse) was written back" % (delta, o.get("fee")), {"tx": t}))
                 blk_exec.setdefault(sid, []).append(t["nonce"])
                 blk_hashes.append((o["hash"], t))
                 if o["res"] == "err":
@@ -703,8 +713,11 @@ def predicates(c, obs):
                             want = blk_start["names"].get(str(t["from"]), [0, 0])[0]
                         if t["replayof"]:
                             t0 = all_txs[t["replayof"] - 1]
-                            t = dict(t, signer=t0["signer"])
-                        if t["signer"] != want:
+                            t = dict(t, signer=t0["signer"], sigforeign=t0.get("sigforeign"))
+                        if t.get("sigforeign"):
+                            fails.append(("C04", "foreign-signature-accepted", "a block was accepted that contains a transaction whose signature was made for ANOTHER chain id "
+                                          "(ChainIdHash rewritten to the local one, hash recomputed): the signature does not bind the chain id", {"tx": t}))
+                        elif t["signer"] != want:
                             fails.append(("C04", "forged-accepted", "a block containing a transaction signed by the wrong key was accepted", {"tx": t}))
                 prev = o["d"]
                 blk_start = prev
@@ -721,8 +734,8 @@ def predicates(c, obs):
                         if 200 <= t["from"] < 300:
                             want = blk_start["names"].get(str(t["from"]), [0, 0])[0]
                         if t["replayof"]:
-                            t = dict(t, signer=all_txs[t["replayof"] - 1]["signer"])
-                        return t["signer"] == want
+                            t = dict(t, signer=all_txs[t["replayof"] - 1]["signer"], sigforeign=all_txs[t["replayof"] - 1].get("sigforeign"))
+                        return t["signer"] == want and not t.get("sigforeign")
                     if inc and allok and not c["blocks"][o["blk"]].get("cidmut") and c["blocks"][o["blk"]].get("deliver") != "foreign" and len(inc) == len(c["blocks"][o["blk"]]["txs"]) and all(signer_ok(t) for t in inc):
                         fails.append(("C04", "valid-rejected", "a block whose transactions all execute and are all correctly signed was refused: " + str(o.get("addErr")),
                                       {"block": o["blk"]}))
@@ -906,6 +919,13 @@ def corpus_cases(pid):
                    {"txs": [tr5(10, 2), tr5(11, 2)]},
                    {"txs": [tr5(10, 3)], "deliver": "foreign"},
                    {"txs": [tr5(10, 3)], "deliver": "own"}], "commitonly")
+    # transfers addressed to the sender's own account, amount > 0: as an address and through a name resolving to
+    # the sender (executeTx holds two AccountState copies of one account): only fee and nonce may change
+    for mode in ("exec", "chain"):
+        case(mode, [{"no": 5, "validator": False, "txs": [T("namecreate", 10, 1, name=200, amount=str(AERGO)), T("transfer", 11, 1, to=11, amount=str(3 * AERGO))]},
+                    {"no": 6, "validator": False, "txs": [T("transfer", 10, 2, to=200, amount=str(2 * AERGO)), T("transfer", 200, 3, to=10, amount=str(AERGO), signer=10),
+                                                           T("transfer", 200, 4, to=200, amount="7", signer=10), T("transfer", 11, 2, to=11, amount="0")]}],
+             "selftransfer")
     # MULTICALL (implementation only): success with fee, with a transfer to a third account, runtime error, and
     # from an account that cannot pay
     for ver, zf in ((4, False), (2, False), (0, False), (4, True)):
@@ -965,6 +985,10 @@ def corpus_cases(pid):
         for mut in ("mainnet", "publicnet", "magic", "consensus"):
             case("chain", [{"txs": [ok(1), ok(2)]}, {"txs": [ok(3), T("transfer", 11, 1, to=10, amount="9")], "cidmut": mut},
                            {"txs": [ok(3)]}], "foreignchain")
+        # cross-chain replay with the ChainIdHash field REWRITTEN: signed for another chain, field set to the local hash,
+        # tx hash recomputed -> passes tx.Validate; only the signature (which must cover the chain id) stops it
+        case("chain", [{"txs": [ok(1)]}, {"txs": [ok(2), dict(T("transfer", 11, 1, to=10, amount=str(1000 * AERGO)), sigforeign=True)]},
+                       {"txs": [ok(2), T("transfer", 11, 1, to=10, amount="5")]}], "sigforeign")
         # same-block sequences: a name is re-pointed / created / the contract owner set, and a later tx of the SAME
         # block is sent "from" that name: the executor must still resolve the name as of the start of the block
         # (the view the signature check uses); the tx written for the NEW destination's nonce must not execute
@@ -1004,7 +1028,7 @@ FOCUS = {
     "C01": {},
     "C03": {"fail": 0.4, "fails": ["balance", "nonce_high", "nonce_low", "chain", "balance"],
             "weights": {"call": 16, "deploy": 10, "feedeleg": 8}},
-    "C04": {"fail": 0.4, "fails": ["nonce_low", "nonce_high", "chain", "signer", "replay", "signer", "replay"]},
+    "C04": {"fail": 0.4, "fails": ["nonce_low", "nonce_high", "chain", "signer", "replay", "signer", "replay", "sigforeign"]},
 }
 
 
